@@ -766,7 +766,7 @@ pub fn run(ctx: &Ctx) {
     ));
     ctx.set_exhaustive(true);
     ctx.assume("a forced run into an empty directory defines what 'current' output is (a mismatch is re-checked against a second, fresh forced run before it is reported)");
-    ctx.assume("declaration maps come from the harness's TypeScript-subset parser; order of declarations inside a file is not compared");
+    ctx.assume("files are compared byte-wise after removing the timestamp line (so the order of declarations counts; the graph files line by line); declaration maps from the harness's TypeScript-subset parser only serve to name what differs");
     ctx.note("edit_classes", json!(EDITS.iter().map(|e| json!({"name": e.name, "kind": format!("{:?}", e.kind), "what": e.what})).collect::<Vec<_>>()));
     let keys = all_histories(max_len, &[false, true]);
     ctx.note("enumerated_histories", json!(keys.len()));
